@@ -315,7 +315,9 @@ def rule_topic(ctx: Ctx) -> None:
     ctx.ob("C19-4", "G2", pub, evl[0] if evl else None, ok and not stt.uses, "Topic.publish emits exactly one delivery per snapshot entry, unconditionally, carrying the message, stamped after the latencies")
     ps = t.methods["publish_sync"]
     lp = [s for s in ps.node.body if isinstance(s, ast.For) and unparse(s.iter) == "self._subscriptions.values()"]
-    ok = len(lp) == 1 and len([c for c in calls_in(lp[0]) if path_of(c.func) == "Event"]) == 1 and any(isinstance(s, ast.If) and unparse(s.test) == "subscription.active" for s in lp[0].body) and not ps.is_generator
+    evc = [c for c in calls_in(lp[0]) if path_of(c.func) == "Event"] if lp else []
+    psf = ctx.flow(ps)
+    ok = len(lp) == 1 and len(evc) == 1 and psf.holds_at(node_of(psf.cfg, evc[0]), Fact("truthy", f"{path_of(lp[0].target)}.active")) and not ps.is_generator
     ctx.ob("C19-4", "G2", ps, lp[0] if lp else None, ok, "Topic.publish_sync emits one delivery per active subscription")
     sub = t.methods["subscribe"]
     sf = ctx.flow(sub)
